@@ -98,6 +98,7 @@ struct Exec
 // one execution following `prefix`, then default choices; shutdownAt >= 0: issue shutdown() before that point
 static bool gPollReports = true;
 static int gAcceptFaults = 0;     // the first n accepts fail for lack of descriptors (EMFILE), then succeed
+static bool gGatedStart  = false; // the endpoint's threads wait for the scheduler before their first instruction
 static bool gFine        = false; // server threads also park before every mutex acquisition (finer than one epoll batch)
 static Exec run_one(const std::vector<uint8_t>& prefix, int shutdownAt, vr::Ctx& ctx, uint64_t& steps, const std::string& label)
 {
@@ -106,7 +107,7 @@ static Exec run_one(const std::vector<uint8_t>& prefix, int shutdownAt, vr::Ctx&
     auto router  = make_router();
     auto handler = Rest::Router::handler(router);
     auto opts    = Http::Endpoint::options().flags(Tcp::Options::ReuseAddr | Tcp::Options::NoDelay).maxRequestSize(4096);
-    srv.start(handler, opts, W);
+    srv.start(handler, opts, W, gGatedStart);
     if (gFine)
         for (int a = 0; a < 1 + W; ++a)
             ng_set_fine(a, 1);
@@ -286,6 +287,7 @@ struct Case
     bool shutdowns;
     bool fine        = false;
     int acceptFaults = 0;
+    bool gatedStart  = false;
 };
 static void run_one_noreport(const std::vector<uint8_t>& prefix, vr::Ctx& ctx, uint64_t& steps)
 {
@@ -394,8 +396,9 @@ static void run_case(uint64_t idx, vr::Ctx& ctx)
     D            = c.d;
     gFine        = c.fine;
     gAcceptFaults = c.acceptFaults;
+    gGatedStart   = c.gatedStart;
     build_scripts();
-    std::string label = std::string(c.fine ? "[threads also yield before every lock] " : "") + (c.acceptFaults ? "[first " + std::to_string(c.acceptFaults) + " accepts fail with EMFILE] " : std::string()) + "w=" + std::to_string(W) + " c=" + std::to_string(C) + " r=" + std::to_string(R) + " D<=" + std::to_string(D) + (c.shutdowns ? " +shutdown-at-every-prefix" : "");
+    std::string label = std::string(c.gatedStart ? "[start-up: threads begin when scheduled] " : "") + std::string(c.fine ? "[threads also yield before every lock] " : "") + (c.acceptFaults ? "[first " + std::to_string(c.acceptFaults) + " accepts fail with EMFILE] " : std::string()) + "w=" + std::to_string(W) + " c=" + std::to_string(C) + " r=" + std::to_string(R) + " D<=" + std::to_string(D) + (c.shutdowns ? " +shutdown-at-every-prefix" : "");
     ctx.note(label);
     uint64_t steps = 0, execs = 0, shutdownExecs = 0;
     std::vector<std::vector<uint8_t>> stack;
@@ -471,6 +474,9 @@ int main(int argc, char** argv)
     gCases.push_back({ 2, 2, 1, 1, true, false, 2 });
     // shutdown while a thread is in the middle of a batch (before any of its lock acquisitions)
     gCases.push_back({ 2, 2, 1, 0, true, true });
+    // start-up: acceptor and workers begin only when scheduled; a client may connect and shutdown() may come before a
+    // worker has entered its loop
+    gCases.push_back({ 2, 1, 1, 1, true, false, 0, true });
     gCases.push_back({ 2, 2, 2, 0, true });
     gCases.push_back({ 3, 3, 1, 0, true });
     if (thorough)
